@@ -68,6 +68,13 @@ func c08Scenarios(tier string) []*Scenario {
 		for _, c := range [][]string{{"S0", "C", "R*", "R"}, {"S0", "C", "H", "R*", "T"}} {
 			add(tr, "", RPC{Kind: "cs", Client: c, Handler: []string{"r*", "s0", "sn", "ret:st:15"}})
 		}
+		// Header() asked for by another goroutine while the receive is under way
+		for r := 0; r <= 2; r++ {
+			for _, hdr := range [][]string{nil, {"h:a"}} {
+				add(tr, "", RPC{Kind: "cs", Client: []string{"S0", "C", "R*", "R"}, Client2: []string{"H"}, Handler: cat([]string{"r*"}, hdr, sends("s", r), []string{"ret:ok"})})
+			}
+		}
+		add(tr, "", RPC{Kind: "cs", Client: []string{"S0", "C", "R*", "R"}, Client2: []string{"H"}, Handler: []string{"r*", "s0", "ret:st:5"}})
 		// responses sent before the client has finished sending (in-process: full duplex)
 		if tr == "inproc" {
 			add(tr, "", RPC{Kind: "cs", Client: []string{"S0", "S1", "C", "R*", "R"}, Handler: []string{"r", "s0", "s1", "r*", "ret:ok"}})
